@@ -21,6 +21,7 @@ use rosu_map::{
 
 use crate::{
     gen::osu,
+    model::timing,
     obs::recorder::Trace,
     util::{fnv64, show, Ctx, Rng, J},
 };
@@ -173,6 +174,10 @@ fn recompute(ctx: &mut Ctx, index: u64, text: &str) -> bool {
         }
         let cp = &full.control_points;
         let mode = full.mode;
+        // the beat length and slider-velocity multiplier active at a slider's start come from the
+        // legacy model of the file's timing-point lines (independent of the library's own lists)
+        let tlines: Vec<&str> = trace.calls.iter().filter(|(sec, _)| *sec == 5).map(|(_, l)| l.as_str()).collect();
+        let (mcp, _) = timing::model(&tlines, 0, 0, 100);
         // 2. the first object after each break starts a new combo (holds carry no combo)
         let mut first_after_break = vec![false; raw.len()];
         for b in &full.breaks {
@@ -212,12 +217,20 @@ fn recompute(ctx: &mut Ctx, index: u64, text: &str) -> bool {
                 (HitObjectKind::Slider(rs), HitObjectKind::Slider(fs)) => {
                     ctx.count("sliders_recomputed");
                     // 3. velocity and duration in closed form
-                    let bl = cp.timing_points.iter().rev().find(|p| p.time <= ro.start_time).or(cp.timing_points.first()).map_or(1000.0, |p| p.beat_len);
-                    let sv = cp.difficulty_points.iter().rev().find(|p| p.time <= ro.start_time).map_or(1.0, |p| p.slider_velocity);
-                    let sv_eff = match mode {
-                        GameMode::Osu | GameMode::Catch => sv.clamp(0.01, 10.0),
-                        _ => sv.clamp(0.1, 10.0),
-                    };
+                    let at = ro.start_time;
+                    let bl = mcp.t_at(at).map_or(1000.0, |p| p.bl);
+                    // the multiplier of an inherited line is limited to [0.1, 10] in every mode
+                    let sv = mcp.d_at(at).map_or(1.0, |p| p.sv);
+                    let sv_eff = sv.clamp(0.1, 10.0);
+                    if sv < 0.1 + 1e-9 {
+                        ctx.count("sliders_at_the_lower_velocity_limit");
+                    }
+                    // cross-check of the inputs: the library's own lists must name the same values
+                    let bl_lib = cp.timing_points.iter().rev().find(|p| p.time <= ro.start_time).or(cp.timing_points.first()).map_or(1000.0, |p| p.beat_len);
+                    let sv_lib = cp.difficulty_points.iter().rev().find(|p| p.time <= ro.start_time).map_or(1.0, |p| p.slider_velocity);
+                    if bl_lib != bl || sv_lib != sv {
+                        ctx.violation("active_points", format!("slider at {:?}: active beat length / multiplier {bl_lib:?} / {sv_lib:?}, legacy model of the timing lines says {bl:?} / {sv:?}", ro.start_time), index, bytes);
+                    }
                     let v = 100.0 * full.slider_multiplier * sv_eff / bl;
                     if ((fs.velocity - v) / v).abs() > 1e-12 {
                         ctx.violation("velocity", format!("slider at {:?}: velocity {:?}, closed form {v:?} (SM {}, sv {sv}, beat length {bl})", ro.start_time, fs.velocity, full.slider_multiplier), index, bytes);
